@@ -104,6 +104,49 @@ def load_known(pid):
     return known, fixed
 
 
+def miri_group(cfg, broken, log):
+    """Run the crate `cfg['crate']` (real kvarn code from /repo, path dependency) under Miri for `cfg['seeds']` schedules.
+    Undefined behaviour (a data race, a dangling reference) or a failed assertion is a failing schedule; a crate that no
+    longer compiles against /repo is a broken correspondence; a missing Miri toolchain is logged and skipped (supporting
+    evidence only — the theorems do not depend on it)."""
+    crate = f"{VERIF}/{cfg['crate']}"
+    t0 = time.time()
+    g = {"group": cfg["name"], "rule": cfg["rule"], "evaluations": 0, "compared_with_model": 0, "distinct_nontrivial": 0,
+         "disagreements": [], "oracle_failures": [], "histogram": {}, "max_line_len": 0, "samples": [], "wall_s": 0}
+    try:
+        shutil.copy("/repo/Cargo.lock", f"{crate}/Cargo.lock")
+    except Exception:
+        pass
+    for seed in range(cfg.get("seeds", 8)):
+        env = dict(os.environ, MIRIFLAGS=f"-Zmiri-seed={seed}", CARGO_TARGET_DIR=f"{crate}/target", CARGO_NET_OFFLINE="true")
+        with Lock(f"{VERIF}/.miri.lock"):
+            rc, out = sh(["cargo", "+nightly", "miri", "run", "--offline", "--"] + cfg.get("args", []), cwd=crate, timeout=2400, env=env)
+        line = f"{cfg['name']} seed={seed}"
+        if "Undefined Behavior" in out or "panicked at" in out:
+            i = out.find("Undefined Behavior") if "Undefined Behavior" in out else out.find("panicked at")
+            what = " ".join(out[max(0, i - 20):i + 900].split())
+            g["oracle_failures"].append({"key": f"miri:{cfg['name']}", "line": line, "what": what, "impl": f"MIRIFLAGS=-Zmiri-seed={seed} cargo +nightly miri run --offline (in {crate})"})
+            g["histogram"]["undefined-behaviour"] = g["histogram"].get("undefined-behaviour", 0) + 1
+            g["evaluations"] += 1
+            break
+        if cfg["ok_marker"] in out:
+            g["evaluations"] += 1
+            g["distinct_nontrivial"] += 1
+            g["histogram"]["ok"] = g["histogram"].get("ok", 0) + 1
+            if not g["samples"]:
+                g["samples"].append({"line": line, "impl": cfg["ok_marker"]})
+            continue
+        if re.search(r"error(\[E\d+\])?: ", out) and ("could not compile" in out):
+            errs = [l for l in out.split("\n") if l.startswith("error")]
+            broken.append(("correspondence-build", f"{cfg['crate']} vs /repo working tree", "\n".join(errs[:10])))
+            break
+        log.append(f"miri: not available or did not run (rc={rc}): {' '.join(out[-300:].split())}")
+        break
+    g["wall_s"] = round(time.time() - t0, 1)
+    log.append(f"miri {cfg['name']}: {g['histogram']}")
+    return g
+
+
 def main():
     pid, tier = sys.argv[1], sys.argv[2]
     replay_in = None
@@ -196,6 +239,10 @@ def main():
             result = json.load(open(f"{outdir}/result.json"))
         else:
             broken.append(("correspondence-run", "kvarn-verif " + pid, f"harness produced no result (rc={p.returncode}): {p.stderr[-1500:]}"))
+
+    # 4b. thorough only: schedules of the real code under Miri (data-race / UB detector), where the property has such a crate
+    if tier == "thorough" and meta.get("miri") and result is not None and not replay_in:
+        result["groups"].append(miri_group(meta["miri"], broken, log))
 
     # 5. verdict
     known, fixed = load_known(pid)
